@@ -302,7 +302,15 @@ def array_live_program(rng, pid):
         return lc(rng.randint(-1, 1)) if rng.random() < 0.5 else lv(rng.choice(ints))
 
     def one():
-        k = rng.choice(["store", "store", "store", "load", "load", "copy", "init", "symstore", "scalar", "assume", "assert"])
+        k = rng.choice(["store", "store", "store", "load", "load", "copy", "init", "symstore", "scalar", "assume", "assert", "csl", "csl"])
+        if k == "csl":
+            # definition of a whole array (copy / init), then a store to ONE cell of it (flagged strong or weak), then a
+            # load of the OTHER cell: the first definition is still needed
+            a, b = rng.sample([A, B_], 2)
+            c = rng.randint(0, 1)
+            d0 = {"op": "aassign", "a": a, "b": b} if rng.random() < 0.7 else {"op": "ainit", "a": a, "es": 1, "lb": lc(0), "ub": lc(1), "v": val()}
+            return [d0, {"op": "astore", "a": a, "i": lc(c), "v": val(), "es": 1, "strong": rng.choice([0, 1, 1])},
+                    {"op": "aload", "x": rng.choice(ints), "a": a, "i": lc(1 - c), "es": 1}]
         if k == "store":
             return [{"op": "astore", "a": arr(), "i": lc(rng.randint(0, 1)), "v": val(), "es": 1, "strong": rng.choice([0, 1, 1])}]
         if k == "load":
